@@ -30,7 +30,7 @@ from . import hashmany as hmany
 
 TRUSTED = ["call binding (pyvc.sym.bind_args)", "contextlib.contextmanager single-yield semantics", "pool contracts proved in C09"]
 ASSUMPTIONS = ["client_class is Client (no subclass overrides)"]
-NOT_COVERED = ["Client.__init__ itself (that each stored option takes effect is what C01..C06 prove per option)", "RetryingClient: __getattr__ forwarding is proved in C17 (re-run here as dep:C17)",
+NOT_COVERED = ["that each stored option takes effect is what C01..C06, C20 prove per option (Client.__init__ storing them is a unit of this check)", "RetryingClient: __getattr__ forwarding is proved in C17 (re-run here as dep:C17)",
                "non-key-addressed methods (stats, flush_all, quit, close, version, raw_command differ by design)"]
 BUDGET = {"quick": 30, "thorough": 120}
 FILTER_BY_PROPERTY = True
@@ -43,6 +43,8 @@ def build(E, tier):
     hm.verify_hash_single(E)
     hmany.verify_hash_ctor(E, "C16")
     hmany.verify_ctor_defaults(E, "C16")
+    from . import clientmodel as cm
+    cm.verify_client_ctor(E, "C16")
     hmany.verify_hash_many(E, prop="C16")
     hmany.verify_hash_delete_many(E, prop="C16")
 
